@@ -193,6 +193,7 @@ type script struct {
 	Subs  int    `json:"subs"`
 	Tail  string `json:"tail"`  // answers to retrieval attempts once a stream is ending: allfail | allok | failthenok
 	Offer bool   `json:"offer"` // keep offering headers while a stream is ending
+	Defer bool   `json:"defer"` // apply all steps first, let the streams end afterwards (model counterexamples)
 	Steps []step `json:"steps"`
 }
 
@@ -490,7 +491,9 @@ func (s *scenario) doCancel(sb *subscription) bool {
 	sb.emit("cancel")
 	sb.cancel()
 	s.rep.Count("cancels", 1)
-	s.finishStream(sb)
+	if !s.sc.Defer {
+		s.finishStream(sb)
+	}
 	return true
 }
 
@@ -502,7 +505,9 @@ func (s *scenario) doFeedClose(sb *subscription) bool {
 	sb.emit("feedclose")
 	close(sb.feed)
 	s.rep.Count("feed_closes", 1)
-	s.finishStream(sb)
+	if !s.sc.Defer {
+		s.finishStream(sb)
+	}
 	return true
 }
 
@@ -521,7 +526,7 @@ func (s *scenario) doStop() bool {
 	}
 	s.rep.Count("stops", 1)
 	for _, sb := range s.subs {
-		if !sb.closedSeen {
+		if !sb.closedSeen && !s.sc.Defer {
 			s.finishStream(sb)
 		}
 	}
@@ -718,6 +723,13 @@ func (s *scenario) run() {
 		}
 		if s.apply(st) {
 			s.applied = append(s.applied, st)
+		}
+	}
+	if s.sc.Defer {
+		for _, sb := range s.subs {
+			if s.broken == "" && !sb.closedSeen && s.ending(sb) {
+				s.finishStream(sb)
+			}
 		}
 	}
 	if s.broken == "" && !s.stopped && len(s.subs) > 1 {
